@@ -292,3 +292,97 @@ func reflectKindOfArg(r *Real, a *flags.Arg) reflect.Kind {
 	}
 	return reflect.Invalid
 }
+
+// checkC06ArgsRequired: `positional-args:"yes" required:"yes"` makes every plain (non-slice) positional
+// field of THAT command required — of the command the struct belongs to, whatever the parser's own or
+// an outer command's positional struct says.  Root and command each have a positional struct, each with
+// or without the mark; the words given to the command fall short of, meet or exceed its fields.
+func checkC06ArgsRequired(c *Ctx, n int) {
+	r := c.Rng
+	for i := 0; i < n; i++ {
+		mk := func(prefix string, m int, rest bool) (*StructDesc, []string) {
+			sd := &StructDesc{}
+			var names []string
+			for j := 0; j < m; j++ {
+				nm := fmt.Sprintf("%s%d", prefix, j)
+				sd.Fields = append(sd.Fields, FieldDesc{Name: nm, Exported: true, Kind: "v", Ty: "str"})
+				names = append(names, nm)
+			}
+			if rest {
+				sd.Fields = append(sd.Fields, FieldDesc{Name: prefix + "Rest", Exported: true, Kind: "v", Ty: "Lstr"})
+			}
+			return sd, names
+		}
+		rootM, cmdM := r.Intn(3), 1+r.Intn(3)
+		rootReq, cmdReq := r.Intn(2) == 0, r.Intn(2) == 0
+		cmdRest := r.Intn(3) == 0
+		rootPos, rootNames := mk("R", rootM, false)
+		cmdPos, cmdNames := mk("C", cmdM, cmdRest)
+		tag := func(req bool) string {
+			if req {
+				return `positional-args:"yes" required:"yes"`
+			}
+			return `positional-args:"yes"`
+		}
+		cmdSd := &StructDesc{Fields: []FieldDesc{{Name: "CV", Exported: true, Kind: "v", Ty: "bool", Tag: `long:"cv"`},
+			{Name: "CArgs", Exported: true, Kind: "s", Sub: cmdPos, Tag: tag(cmdReq)}}}
+		root := &StructDesc{Fields: []FieldDesc{{Name: "V", Exported: true, Kind: "v", Ty: "bool", Tag: `short:"v"`}}}
+		if rootM > 0 {
+			root.Fields = append(root.Fields, FieldDesc{Name: "RArgs", Exported: true, Kind: "s", Sub: rootPos, Tag: tag(rootReq)})
+		}
+		root.Fields = append(root.Fields, FieldDesc{Name: "Cmd", Exported: true, Kind: "s", Sub: cmdSd, Tag: `command:"cmd"`})
+		cs := &Case{Name: "app", NsDelim: ".", EnvNsDelim: "_"}
+		cs.Build = []BuildOp{{Kind: "addgroup", Target: 1, Short: "Application Options", Struct: root}}
+		var argv []string
+		for j := range rootNames {
+			argv = append(argv, fmt.Sprintf("r%d", j))
+		}
+		argv = append(argv, "cmd")
+		k := r.Intn(cmdM + 2)
+		if !cmdRest && k > cmdM {
+			k = cmdM
+		}
+		for j := 0; j < k; j++ {
+			if r.Intn(4) == 0 {
+				argv = append(argv, "--cv")
+			}
+			argv = append(argv, fmt.Sprintf("c%d", j))
+		}
+		cs.Ops = []Op{{Kind: "parse", Args: argv}}
+		cs.Description = describeOps(cs)
+		var missing []string
+		if cmdReq && k < cmdM {
+			for _, nm := range cmdNames[k:] {
+				missing = append(missing, "`"+nm+"`")
+			}
+		}
+		want := "success"
+		switch {
+		case len(missing) == 1:
+			want = "the required argument " + missing[0] + " was not provided"
+		case len(missing) > 1:
+			want = "the required arguments " + joinAnd(missing) + " were not provided"
+		}
+		c.RunCases([]*Case{cs}, func(cr *CaseResult) {
+			c.classifyCase(cr)
+			var obs parseObs
+			for _, o := range parseBlocks(cr) {
+				obs = o
+			}
+			c.Class(fmt.Sprintf("c06/args-required: root-marked=%v command-marked=%v fields=%d words=%d", rootReq && rootM > 0, cmdReq, cmdM, k))
+			in := map[string]interface{}{"case": cs.Description, "argv": argv, "root_positional_struct_marked_required": rootReq && rootM > 0,
+				"command_positional_struct_marked_required": cmdReq, "command_fields": cmdNames, "words_given_to_the_command": k}
+			var ok bool
+			if len(missing) == 0 {
+				ok = obs.panic == "" && obs.errKind == "ok"
+			} else {
+				ok = obs.panic == "" && obs.errKind == "flags" && obs.errType == int(flags.ErrRequired) && obs.errMsg == want
+			}
+			if !ok {
+				in["case_file"] = c.saveCase(cr)
+			}
+			c.Check("the-command's-own-mark-decides-which-positional-arguments-are-required", ok, "C06:args-required", in,
+				fmt.Sprintf("%s %s type %d %q", obs.panic, obs.errKind, obs.errType, obs.errMsg), want)
+		})
+	}
+}
